@@ -294,7 +294,13 @@ CLAIMED = {
              "unparsable transform is dropped and the inherited one kept; (4) a zero-sized nested svg keeps the parse running, marks "
              "only its own scope display:none and emits nothing; (5) sibling frame: for any element e among its siblings whose "
              "rendering keeps the parse running and the rule table unchanged, render(pre ++ e :: post) = render pre ++ render e ++ X "
-             "and render(pre ++ post) = render pre ++ X with the same X. The value parsers' totality on arbitrary text (transform, "
+             "and render(pre ++ post) = render pre ++ X with the same X; (6) C10_no_abort: with stage B's transform parser as the "
+             "container constructors' parser, for every document whose caller-supplied transform is acceptable the document layer "
+             "returns (or reports the marker of a symbolic length): the transform parser's verdict on a piece does not depend on the "
+             "matrix it is parsed onto (error-independence lemmas through applyVals/applyFunc/parseTokens), so 'every piece of the "
+             "accumulated transform is acceptable' is an invariant of the recursion (own text is validated before it is appended; "
+             "svg/use append generated matrices), and no ValueError, TypeError, IndexError or RecursionError can leave the loop or a "
+             "container constructor. The value parsers' totality on arbitrary text (transform, "
              "colour, length, points, viewBox, opacity, path data) is tied to the code by running the character-level Lean model on "
              "the faulted documents: exhaustive grid of 14 element kinds x all fault values of 21 attributes, random documents with 1-3 "
              "faults and retargeted use references, hand-made cycles; exception/no exception and the shapes outside the faulty "
